@@ -488,6 +488,11 @@ pub(crate) fn validate_default_for_adjacent_enum(
 
     match (&variant.details, content_value) {
         (VariantDetails::Simple, None) => Some(DefaultKind::Specific),
+        (VariantDetails::Item(type_id), Some(content_value)) => {
+            validate_type_id(type_id, type_space, content_value)
+                .ok()
+                .map(|_| DefaultKind::Specific)
+        }
         (VariantDetails::Tuple(tup), Some(content_value)) => {
             validate_default_tuple(tup, type_space, content_value)
         }
